@@ -30,6 +30,8 @@ var roomUsers = []roomUser{
 	{"op1", "op"}, {"op2", "op"}, {"pres", "present"}, {"pres2", "present"}, {"msg", "message"}, {"obs", "observe"},
 	{"cap", []string{"present", "message", "caption"}}, {"tok", []string{"present", "message", "token"}},
 	{"rawop", []string{"op"}},
+	// rights that do not come from a role: 'record' held in a group that may not allow recording
+	{"rec", []string{"present", "message", "record"}}, {"oprec", []string{"op", "present", "record"}},
 }
 
 type roomCfg struct {
